@@ -109,6 +109,83 @@ def run_session(build, sc, label, sess, env=None, timeout=240):
     return t, rc
 
 
+NOHANDLER_DEFS = """
+(define (deepcall k th) (if (= k 0) (th) (let ((r (deepcall (- k 1) th))) r)))
+(define (calls-foreign . args) (string->number "42"))
+(define s3 (make-string 3 #\\x))
+"""
+
+
+def nohandler_phase(chk, build, sc, space, rng):
+    """Errors nobody handles, through the embedding API (sexp_eval_string from C): the error object must come back, the
+    session objects stay as they were and the context keeps working - whatever the shape of the VM stack at the
+    moment of the error (deep non-tail frames, calls with thousands of arguments, a foreign call that just returned)."""
+    exe = vlib.compile_c(build, os.path.join(vlib.VERIF, "harness", "c", "nohandler.c"), sc.file("nohandler"))
+    drv = open(DRIVER).read()
+    drv = drv[:drv.rindex("(main (cadr (command-line)))")]
+    defs = sc.file("nohandler_defs.scm")
+    open(defs, "w").write(drv + NOHANDLER_DEFS)
+    errs = [c for c, cls in space if cls == "err" and c[0] in ("ref", "set", "car", "arith", "nonproc", "tail", "cur", "arity", "sub")]
+    rng.shuffle(errs)
+    n = 400 if chk.thorough else 90
+    script = sc.file("nohandler_script.txt")
+    cases = []
+    with open(script, "w") as f:
+        f.write('["reset"]\t(reset!)\n')
+        for i, c in enumerate(errs[:n]):
+            call = "(perform '%s)" % sexp(c)
+            k = i % 6
+            if k == 0:
+                e = call
+            elif k == 1:
+                e = "(deepcall %d (lambda () %s))" % (rng.choice([3, 50, 1000, 4000]), call)
+            elif k == 2:
+                e = "(apply (lambda args %s) (make-list %d s3))" % (call, rng.choice([10, 1000, 7000]))
+            elif k == 3:      # a foreign call from a frame high on the stack has just returned; the next error is raised by an inlined primitive
+                e = "(begin (apply calls-foreign (make-list %d s3)) (apply (lambda args %s) (make-list %d s3)))" % (rng.choice([6000, 3000]), call, rng.choice([7000, 2500, 6500]))
+            elif k == 4:
+                e = "(deepcall %d (lambda () (apply (lambda args %s) (make-list %d s3))))" % (rng.choice([10, 500]), call, rng.choice([100, 5000]))
+            else:
+                e = "(begin (deepcall 3000 (lambda () (calls-foreign 1 2 3))) %s)" % call
+            cases.append(c)
+            f.write(json.dumps(c) + "\t" + e + "\n")
+    t = sc.file("nohandler.ndjson")
+    try:
+        p = subprocess.run([exe, defs, script], env=build.env(), cwd=vlib.REPO, stdout=subprocess.PIPE, stderr=subprocess.PIPE, timeout=600)
+        out, rc = p.stdout.decode(errors="replace"), p.returncode
+    except subprocess.TimeoutExpired as ex:
+        out, rc = (ex.stdout or b"").decode(errors="replace"), -9
+    evs = [json.loads(l) for l in out.splitlines() if l.startswith("{")]
+    # the reset line is reported as a Reset event for the trace specification
+    for e in evs:
+        if e.get("e") == "Call" and e.get("c") == ["reset"]:
+            e.clear()
+            e.update({"e": "Reset"})
+    evs = [e for e in evs if not (e.get("e") == "Begin" and e.get("id") == 1)]
+    vlib.write_ndjson(t, evs)
+    if not evs or evs[-1].get("e") != "Done":
+        begun = [e.get("id") for e in evs if e.get("e") == "Begin"]
+        running = open(script).read().splitlines()[begun[-1] - 1] if begun else "?"
+        shape = "wide-apply-after-foreign-call" if "calls-foreign" in running and "apply (lambda" in running else ("deep" if "deepcall" in running else "plain")
+        key = "c01:nohandler:crash:%s" % shape
+        chk.report(key, "embedding harness without a handler died (exit status %d) while evaluating %s" % (rc, running[:300]),
+                   "nohandler_crash.json", {"key": key, "rc": rc, "running": running})
+        return 0
+    r = vlib.run_tlc("PrimTrace.tla", "PrimTrace.cfg", sc.path, env={"TRACE": t}, workers=1, timeout=600, heap="3g")
+    if r.error and "Postcondition" not in r.error:
+        raise Broken("PrimTrace failed on the no-handler trace: %s" % r.error[:1500])
+    if r.ok:
+        chk.cov["nohandler_calls_validated"] = len(cases)
+        return len(cases)
+    ra = hc.rejected_at(r)
+    idx = (ra[0] - 1) if ra else max(0, r.depth - 2)
+    ev = evs[idx] if idx < len(evs) else {}
+    c = ev.get("c", ["?"])
+    key = "c01:nohandler:%s:%s" % (c[0], ev.get("class"))
+    chk.report(key, "no-handler embedding run: event %d rejected by Prim.tla: %s" % (idx + 1, json.dumps(ev)[:300]), "nohandler_rejected.json", {"key": key, "event": ev})
+    return 0
+
+
 def run():
     chk = vlib.Check("C01")
     with vlib.Scratch("c01") as sc:
@@ -194,6 +271,7 @@ def run():
                     key = "c01:heap-anomaly:%s" % (e.get("first", "crash").split(" ")[0])
                     chk.report(key, "canary build: post-GC heap walk anomaly / crash during session %d: %s" % (s[0], json.dumps(e)[:300]),
                                "canary_%d.json" % s[0], {"key": key, "event": e})
+        total_calls += nohandler_phase(chk, build, sc, space, rng)
         chk.cov["calls_validated"] = total_calls
         chk.cov["evaluations"] = total_calls
         chk.cov["distinct_nontrivial"] = len(calls)
